@@ -145,6 +145,11 @@ func (c cfgChoice) config() config.Pipeline {
 		if len(p.Processors) > 0 {
 			p.Processors[0].Plugin = "proc2"
 		}
+	case "B.type": // the second connector changes sides: import has to delete and re-create it under the same id
+		if c.HasB {
+			p.Connectors[1].Type = config.TypeSource
+			p.Connectors[1].Plugin = "src"
+		}
 	case "dlq":
 		p.DLQ = config.DLQ{Plugin: "dst", Settings: map[string]string{"d": "1"}, WindowSize: intp(4), WindowNackThreshold: intp(2)}
 	}
@@ -154,7 +159,7 @@ func (c cfgChoice) config() config.Pipeline {
 func grammar(thorough bool) []cfgChoice {
 	connProcs := [][]string{nil, {"a1"}, {"a1", "a2", "a3"}, {"a3", "a2", "a1"}}
 	pipeProcs := [][]string{nil, {"x", "y", "z"}, {"z", "x"}}
-	edits := []string{"", "name", "A.settings", "A.plugin", "proc.settings", "proc.workers", "proc.condition", "dlq"}
+	edits := []string{"", "name", "A.settings", "A.plugin", "proc.settings", "proc.workers", "proc.condition", "dlq", "B.type"}
 	if thorough {
 		connProcs = append(connProcs, []string{"a2"}, []string{"a1", "a2"}, []string{"a2", "a1", "a3"})
 		pipeProcs = append(pipeProcs, []string{"x"}, []string{"x", "y"}, []string{"y", "x", "z"})
@@ -381,9 +386,10 @@ func TestVerifC15(t *testing.T) {
 					bad("failed-write-ignored", fmt.Sprintf("store write #%d of the import failed but the import reported success", k))
 					continue
 				}
-				if after := f.dump(); after != fbefore && oc.HasB && !nc.HasB && stripStateOf(after, "pl:B") == stripStateOf(fbefore, "pl:B") {
+				bDeleted := oc.HasB && (!nc.HasB || (nc.Edit == "B.type") != (oc.Edit == "B.type")) // removed, or deleted and re-created under the other type
+				if after := f.dump(); after != fbefore && bDeleted && stripStateOf(after, "pl:B") == stripStateOf(fbefore, "pl:B") {
 					// specific shape: the only thing lost is the state (positions) of a connector the failed import was about
-					// to remove - its delete action is rolled back by CREATING the connector anew
+					// to remove (or to re-create with another type) - its delete action is rolled back by CREATING the connector anew
 					bad("failed-import-not-atomic/removed-connector-state-lost", fmt.Sprintf("the import failed at store write #%d (%v) and was rolled back, but connector pl:B - which the import was going to remove - lost its stored state:\n--- before\n%s\n--- after\n%s", k, firstLine(ferr), fbefore, after))
 				} else if after != fbefore {
 					bad("failed-import-not-atomic", fmt.Sprintf("the import failed at store write #%d (%v) but the previous configuration was not fully retained:\n--- before\n%s\n--- after\n%s", k, firstLine(ferr), fbefore, after))
